@@ -640,3 +640,10 @@ def inline_private_helpers(facts, body, resolve, max_depth=3, max_blocks=60):
             work.append((k, depth + 1))
     out["inlined_calls"] = done
     return out
+
+
+def short_key(key):
+    """A body key with the module qualifiers of every path in it dropped (`std::mem::MaybeUninit[private::MaybeUninitExt]::uninit_array`
+    -> `MaybeUninit[MaybeUninitExt]::uninit_array`): where a private item lives is not part of what it does."""
+    import re as _re
+    return _re.sub(r"(?:[A-Za-z_]\w*::)+(?=[A-Za-z_&'\[(])", "", key)
